@@ -23,6 +23,32 @@ class Program:
         self.impls = doc["impls"]
         self.consts = {c["path"]: c["value"] for c in doc.get("consts", [])}
         self.graph = doc.get("graph")
+        self._sites = None
+        self.inlined_helpers = {}
+        self._look_through_new_helpers()
+
+    def _look_through_new_helpers(self):
+        """Extracting a piece of a function into a private helper that is called from that one place does not change behaviour, so the
+        rules must not care: every private, single-call-site function that the reference tree does not know (rules/known_fns.txt) is
+        spliced into its caller (mirlib.inlined) and disappears as a function of its own."""
+        import os
+        try:
+            known = {l.strip() for l in open(os.path.join(os.path.dirname(os.path.abspath(__file__)), "known_fns.txt")) if l.strip() and not l.startswith("#")}
+        except OSError:
+            return
+        helpers = {p for p in self.fns if p not in known and is_private_helper(self, p)}
+        if not helpers:
+            return
+        new = {}
+        for p, f in self.fns.items():
+            if p in helpers:
+                continue
+            new[p] = inlined(self, f, only=helpers)
+        for h in helpers:
+            owner = helper_owner(self, h)
+            self.inlined_helpers[h] = owner
+        self.fns = new
+        self._sites = None
 
     def fn(self, path):
         return self.fns.get(path)
@@ -47,6 +73,169 @@ class Program:
 
 class MissingAnchor(Exception):
     pass
+
+
+# ----------------------------------------------------------------------------
+# inlined view: a function with its private single-call-site helpers spliced in
+# ----------------------------------------------------------------------------
+
+def _call_sites(prog):
+    """callee path -> [(caller path, bb)] over direct calls; plus the set of crate functions mentioned as values (fn items)"""
+    if getattr(prog, "_sites", None) is not None:
+        return prog._sites, prog._as_value
+    sites = defaultdict(list)
+    as_value = set()
+    def walk(x):
+        if isinstance(x, dict):
+            if x.get("k") == "const" and isinstance(x.get("fn"), dict):
+                as_value.update(callee_names(x["fn"]))
+            for v in x.values():
+                walk(v)
+        elif isinstance(x, list):
+            for v in x:
+                walk(v)
+    for p_, f_ in prog.fns.items():
+        for i, b in enumerate(f_.blocks):
+            t = b["term"]
+            if t["k"] in ("call", "tailcall"):
+                for nm in callee_names(t["f"]):
+                    if nm in prog.fns:
+                        sites[nm].append((p_, i))
+                for a in t["args"]:
+                    walk(a)
+            for s_ in b["stmts"]:
+                walk(s_)
+    prog._sites, prog._as_value = sites, as_value
+    return sites, as_value
+
+
+def is_private_helper(prog, path):
+    """a crate function that is not part of any API surface and is called from exactly one place: extracting it from, or inlining
+    it into, its caller does not change behaviour, so rules look through it"""
+    f = prog.fns.get(path)
+    if f is None or f.j.get("is_closure") or "{closure" in path:
+        return False
+    vis = f.j.get("vis") or ""
+    if vis == "pub" or f.j.get("kind") not in ("Fn", "AssocFn"):
+        return False
+    sites, as_value = _call_sites(prog)
+    if path in as_value:
+        return False
+    cs = sites.get(path, [])
+    return len(cs) == 1 and cs[0][0] != path
+
+
+def helper_owner(prog, path):
+    """the function a private single-call-site helper (transitively) belongs to, else the path itself"""
+    seen = set()
+    sites, _ = _call_sites(prog)
+    while is_private_helper(prog, path) and path not in seen:
+        seen.add(path)
+        path = sites[path][0][0]
+    return path
+
+
+def _remap_places(x, lmap, bmap):
+    """deep copy of a MIR JSON fragment with locals shifted by lmap and block targets by bmap (functions int -> int)"""
+    if isinstance(x, dict):
+        y = {}
+        for k, v in x.items():
+            y[k] = _remap_places(v, lmap, bmap)
+        if "l" in x and ("proj" in x or x.get("k") == "index") and isinstance(x["l"], int):
+            y["l"] = lmap(x["l"])
+        return y
+    if isinstance(x, list):
+        return [_remap_places(v, lmap, bmap) for v in x]
+    return x
+
+
+def inlined(prog, fn, only=None, _depth=0):
+    """An Fn equal to `fn` with every call to a private single-call-site helper (is_private_helper; or the paths in `only`) replaced by
+    the helper's body: parameters bound by assignments, the result bound to the call's destination, returns turned into jumps to the
+    call's continuation.  Block numbers of `fn` are preserved; helper blocks are appended and carry "inl": <helper path>."""
+    import copy
+    key = (fn.path, tuple(sorted(only)) if only else None)
+    cache = prog.__dict__.setdefault("_inlined", {})
+    if key in cache:
+        return cache[key]
+    j = copy.deepcopy(fn.j)
+    body = j["body"]
+    changed = False
+    i = 0
+    while i < len(body["blocks"]) and _depth < 6:
+        b = body["blocks"][i]
+        t = b["term"]
+        i += 1
+        if t["k"] != "call" or b["cleanup"]:
+            continue
+        names = [nm for nm in callee_names(t["f"]) if nm in prog.fns]
+        if len(names) != 1:
+            continue
+        g = prog.fns[names[0]]
+        if g.path == fn.path or (only is not None and g.path not in only) or (only is None and not is_private_helper(prog, g.path)):
+            continue
+        if g.arg_count != len(t["args"]) or b.get("inl") == g.path:
+            continue
+        loff = len(body["locals"])
+        boff = len(body["blocks"]) + 1          # +1: the bind block goes first
+        lmap = lambda l, loff=loff: l + loff
+        bmap = lambda x, boff=boff: x + boff
+        for l_ in g.locals:
+            l2 = dict(l_)
+            l2["inl"] = g.path
+            body["locals"].append(l2)
+        # promoted constants of the helper travel with it
+        poff = len(j.get("promoted") or [])
+        j.setdefault("promoted", [])
+        j["promoted"].extend(copy.deepcopy(g.j.get("promoted") or []))
+        bind = {"cleanup": False, "inl": g.path, "stmts": [], "term": {"k": "goto", "t": boff, "ln": t.get("ln")}}
+        for k_, a in enumerate(t["args"]):
+            bind["stmts"].append({"k": "assign", "p": {"l": loff + 1 + k_, "proj": [], "ty": g.locals[1 + k_]["ty"]}, "r": {"k": "use", "op": a}, "ln": t.get("ln")})
+        cont = t["t"]
+        new_blocks = [bind]
+        for gb in g.blocks:
+            nb = _remap_places(gb, lmap, bmap)
+            nb["inl"] = g.path
+            tt = nb["term"]
+            k = tt["k"]
+            if k == "goto":
+                tt["t"] = bmap(gb["term"]["t"])
+            elif k == "switch":
+                tt["targets"] = [[v, bmap(x)] for v, x in gb["term"]["targets"]]
+                tt["otherwise"] = bmap(gb["term"]["otherwise"])
+            elif k in ("drop", "assert", "call"):
+                if gb["term"].get("t") is not None:
+                    tt["t"] = bmap(gb["term"]["t"])
+                if gb["term"].get("unwind") is not None:
+                    tt["unwind"] = bmap(gb["term"]["unwind"])
+            if k == "return" and not nb["cleanup"]:
+                if cont is None:
+                    nb["term"] = {"k": "unreachable", "ln": tt.get("ln")}
+                else:
+                    nb["stmts"] = nb["stmts"] + [{"k": "assign", "p": t["dest"], "r": {"k": "use", "op": {"k": "move", "p": {"l": loff, "proj": [], "ty": g.locals[0]["ty"]}}}, "ln": t.get("ln")}]
+                    nb["term"] = {"k": "goto", "t": cont, "ln": tt.get("ln")}
+            # promoted references
+            def fixp(x):
+                if isinstance(x, dict):
+                    if x.get("k") == "const" and "promoted" in x and isinstance(x["promoted"], int):
+                        x["promoted"] += poff
+                    for v in x.values():
+                        fixp(v)
+                elif isinstance(x, list):
+                    for v in x:
+                        fixp(v)
+            fixp(nb)
+            new_blocks.append(nb)
+        b["term"] = {"k": "goto", "t": len(body["blocks"]), "ln": t.get("ln"), "was_call": g.path}
+        body["blocks"].extend(new_blocks)
+        changed = True
+    if not changed:
+        cache[key] = fn
+        return fn
+    nf = Fn(prog, j)
+    nf.inlined_from = fn
+    cache[key] = nf
+    return nf
 
 
 class Fn:
@@ -920,7 +1109,23 @@ class Explore:
             return None if v is None or v not in (0, 1) else 1 - v
         if t[0] in ("copy", "move") and len(t) == 2:
             return self._eval_term(t[1], depth + 1)
+        if t[0] == "const" and isinstance(t[1], int):
+            return t[1]
+        if t[0] == "cast" and len(t) == 3:
+            return self._eval_term(t[2], depth + 1)
+        if t[0] == "field" and len(t) == 3 and isinstance(t[2], str) and t[2].isdigit():
+            base = noref(t[1])
+            if base[0] == "agg" and base[1] == "tuple" and int(t[2]) < len(base[2]):
+                return self._eval_term(base[2][int(t[2])], depth + 1)
+        if t[0] == "bin" and t[1] in ("Eq", "Ne") and len(t) == 4:
+            a, b = self._eval_term(t[2], depth + 1), self._eval_term(t[3], depth + 1)
+            if a is not None and b is not None:
+                return int((a == b) == (t[1] == "Eq"))
         return None
+
+    def eval(self, t):
+        """public: value of a term under this exploration's assumptions (None if not determined)"""
+        return self._eval_term(t)
 
     def _agg_vidx(self, op, depth=0):
         """variant index of a fieldless enum value moved through temporaries"""
